@@ -25,6 +25,24 @@ type Env struct {
 	// OnNative, if set, is called at the start of every host native (callback, runNested, hostGet, ...).
 	OnNative func(name string)
 	mains    map[string]goja.Callable
+	extra    map[string]*goja.Program
+}
+
+// AddShape loads one more shape into this runtime only (the shared Catalogue stays unchanged).
+func (e *Env) AddShape(s Shape) {
+	if _, err := e.R.RunString(s.Src); err != nil {
+		panic(fmt.Sprintf("shape %s setup: %v", s.Name, err))
+	}
+	if _, err := e.R.RunString("var main_" + s.Name + " = main;"); err != nil {
+		panic(err)
+	}
+	fn, _ := goja.AssertFunction(e.R.Get("main_" + s.Name))
+	e.mains[s.Name] = fn
+	if e.extra == nil {
+		e.extra = map[string]*goja.Program{}
+	}
+	e.extra["run/"+s.Name] = goja.MustCompile("run_"+s.Name+".js", "main_"+s.Name+"()", false)
+	e.extra["nested/"+s.Name] = goja.MustCompile("nested_"+s.Name+".js", "callback(main_"+s.Name+")", false)
 }
 
 var Catalogue = []Shape{
@@ -155,6 +173,9 @@ func init() {
 func (e *Env) Enter(entry, name string) (goja.Value, error) {
 	switch entry {
 	case "run", "nested":
+		if p, ok := e.extra[entry+"/"+name]; ok {
+			return e.R.RunProgram(p)
+		}
 		return e.R.RunProgram(entryPrograms[entry+"/"+name])
 	case "call":
 		return e.mains[name](goja.Undefined())
